@@ -143,7 +143,8 @@ def dict2phase(dictionary: dict) -> Phase:
     else:
         space_group = int(space_group)
     point_group = dictionary["point_group"]
-    if point_group == "None":
+    if point_group == "None" or space_group is not None:
+        # The point group is derived from the space group when there is one
         point_group = None
     return Phase(
         name=dictionary["name"],
